@@ -204,6 +204,71 @@ func scenarioHTTPAPI(t *traceWriter, rng *rand.Rand) {
 				probe()
 			}
 		}
+		// a read that is slow inside the storage layer, an update accepted meanwhile, then a second read: the second one was
+		// issued after the update had returned, so it is served the new checkpoint (whatever the first one gets)
+		if kind != "sqldrv" {
+			for _, ls := range lss {
+				if !ls.has || ls.cur == nil || ls.cur.virtual {
+					continue
+				}
+				id := ls.l.id
+				getBody := func() []byte {
+					resp, err := srv.Client().Get(srv.URL + "/witness/v0/logs/" + id + "/checkpoint")
+					if err != nil {
+						return nil
+					}
+					defer resp.Body.Close()
+					b, _ := io.ReadAll(resp.Body)
+					if resp.StatusCode != 200 {
+						return []byte(fmt.Sprintf("status %d", resp.StatusCode))
+					}
+					return b
+				}
+				parked, release := make(chan struct{}, 1), make(chan struct{})
+				armed := true
+				ctl.gate = func(_ int, op string) {
+					if op == "g" && armed {
+						armed = false
+						parked <- struct{}{}
+						<-release
+					}
+				}
+				chA := make(chan []byte, 1)
+				go func() { chA <- getBody() }()
+				select {
+				case <-parked:
+				case <-time.After(2 * time.Second):
+					close(release)
+					ctl.gate = nil
+					<-chA
+					continue
+				}
+				cp := signNote(cpText(ls.l.origin, ls.curSize, ls.cur.root(ls.curSize), fmt.Sprintf("refreshed-during-a-read %d", h)), ls.l.key.signer)
+				res := s.update(id, ls.curSize, cp, [][]byte{}, "class=api.duringRead")
+				ls.observe(res, ls.l.key.verif)
+				chB := make(chan []byte, 1)
+				go func() { chB <- getBody() }()
+				var bodyB []byte
+				lateB := 0
+				select {
+				case bodyB = <-chB:
+				case <-time.After(1500 * time.Millisecond):
+					lateB = 1
+				}
+				close(release)
+				if lateB == 1 {
+					bodyB = <-chB
+				}
+				<-chA
+				ctl.gate = nil
+				acc := "-"
+				if res.cls == "none" && res.ret != nil {
+					acc = hx(res.ret)
+				}
+				t.line("A %s kind=racedget id=%s states=%s accepted=%s => late=%d body=%s", s.id, hx([]byte(id)), s.statesOf(), acc, lateB, hx(bodyB))
+				break
+			}
+		}
 		probe()
 		srv.Close()
 		// the service is gone: the bundled client reports an error (neither bytes, nor "does not exist", nor a crash)
